@@ -26,6 +26,8 @@ def main():
     os.environ["VERIF_SCRATCH"] = scratch
     import tempfile
     tempfile.tempdir = scratch
+    import logging
+    logging.disable(logging.CRITICAL)      # miasmX logs 'ERROR: b 15' for every undecodable byte
     if "/repo" in sys.path:
         sys.path.remove("/repo")
     sys.path.insert(0, os.environ.get("VERIF_REPO", "/repo"))
@@ -38,6 +40,13 @@ def main():
         name = "checks." + os.path.basename(mods[0])[:-3]
         from vlib import runner
         import miasmx
+        # ply/yacc.py leaves sys.path == [TMPDIR] when its table file is missing (recorded under C12):
+        # import the parsers once here, under a guard, so the rest of the process keeps its import path
+        keep = list(sys.path)
+        try:
+            import miasmx.arch.ia32_arch
+        finally:
+            sys.path[:] = keep
         want = os.path.realpath(os.environ.get("VERIF_REPO", "/repo"))
         if not os.path.realpath(miasmx.__file__).startswith(want + os.sep):
             print("INCONCLUSIVE property=%s miasmx imported from %s, not %s" % (pid, miasmx.__file__, want))
